@@ -778,6 +778,54 @@ def r_cache(F, cfg):
                 else:
                     R.ok({"lookup_in": b.name, "direction": "parameter %d" % r[1]}, nontrivial=True, sample_cap=16)
     R.metric("cache_lookups", nl)
+    # recipe caches (scalar / SSE planners): HashMap<usize, Arc<Recipe>> keyed by the requested length
+    nrc = 0
+    for b in F.bodies.values():
+        if "self_ty" not in b.r:
+            continue
+        st = F.types[b.r["self_ty"]]
+        if st["k"] != "adt" or not st["p"].endswith(("FftPlannerScalar", "FftPlannerSse")):
+            continue
+        a_def = F.adts_by_name.get(st["p"])
+        fnames = [f["name"] for f in a_def["variants"][0]["fields"]] if a_def else []
+        for bi, t in b.calls():
+            c = F.callee_of(t)
+            if not c or "HashMap" not in c["p"]:
+                continue
+            m = c["p"].rsplit("::", 1)[1]
+            if m not in ("get", "insert", "contains_key", "entry", "remove", "get_mut"):
+                continue
+            rr = b.root(t["args"][0])
+            if not (rr[0] == "field" and rr[1] == ("param", 1)):
+                continue
+            fld = rr[2][-1][1] if rr[2] and rr[2][-1][0] == "f" else None
+            if fld is None or fld >= len(fnames) or fnames[fld] != "recipe_cache":
+                continue
+            nrc += 1
+            lens = [i for i in range(2, b.argc + 1) if b.tys(i) == "usize"]
+            kr = b.root(t["args"][1])
+            if len(lens) == 1 and kr == ("param", lens[0]):
+                R.ok({"recipe_cache": m, "in": b.name, "key": "the requested length parameter"}, nontrivial=True)
+            else:
+                R.violation("cache:recipe:%s:%s" % (b.name, m), b.where(t), "%s: recipe_cache.%s uses a key that is not the requested length parameter" % (b.name, m))
+            if m == "insert":
+                # the value stored is the recipe designed for that same length in this function
+                vr = b.root(t["args"][2])
+                src = None
+                if vr[0] == "call":
+                    cv = F.callee_of(vr[2])
+                    if cv and cv["p"].endswith("Clone::clone"):
+                        vr = b.root(vr[2]["args"][0])
+                if vr[0] == "call":
+                    cv = F.callee_of(vr[2])
+                    if cv and cv["local"] and "design_" in cv["p"]:
+                        la = [a for a in vr[2]["args"] if b.root(a) == ("param", lens[0])] if lens else []
+                        src = "designed" if la else "designed-for-other-length"
+                if src == "designed":
+                    R.ok({"recipe_cache_value": "recipe designed for the key length"}, nontrivial=True)
+                elif src == "designed-for-other-length":
+                    R.violation("cache:recipe:%s:value" % b.name, b.where(t), "%s caches a recipe designed for a different length than its key" % b.name)
+    R.metric("recipe_cache_accesses", nrc)
     return R
 
 
